@@ -326,7 +326,12 @@ class Ctx:
 
     def has_fact(self, f, nid, pred):
         """Is there an atom holding on every path into nid with pred(atom) true?"""
-        return any(pred(a) for a in self.facts(f).at(nid))
+        at = self.facts(f).at(nid)
+        if any(pred(a) for a in at):
+            return True
+        # `x = d.get(k)` ... `x is None` / `is not None` read as `k not in d` / `k in d` (rules/common.derived_membership)
+        from .rules.common import derived_membership
+        return any(pred(a) for a in derived_membership(f, at))
 
     def entry_nodes(self, f):
         return {cfg_of(f).entry}
@@ -423,8 +428,74 @@ def kwarg(call, name, pos=None):
 _SIG = {}
 
 
+_RECORDS = {}
+
+
+def _build_records(P):
+    """class name -> ordered field names, for the program's record classes (typing.NamedTuple subclasses and @dataclass classes
+    without an __init__ of their own): `T(a, b)` / `T(x=a, y=b)` builds a record with those fields"""
+    _RECORDS.clear()
+    amb = set()
+    for c in P.classes.values():
+        node = c.node
+        is_nt = any((isinstance(b, ast.Name) and b.id == "NamedTuple") or (isinstance(b, ast.Attribute) and b.attr == "NamedTuple") for b in node.bases)
+        is_dc = any((isinstance(d, ast.Name) and d.id == "dataclass") or (isinstance(d, ast.Attribute) and d.attr == "dataclass")
+                    or (isinstance(d, ast.Call) and ((isinstance(d.func, ast.Name) and d.func.id == "dataclass") or
+                                                      (isinstance(d.func, ast.Attribute) and d.func.attr == "dataclass")))
+                    for d in node.decorator_list)
+        if not (is_nt or is_dc) or "__init__" in c.methods:
+            continue
+        fields = [s.target.id for s in node.body if isinstance(s, ast.AnnAssign) and isinstance(s.target, ast.Name)]
+        if c.name in _RECORDS and _RECORDS[c.name] != (tuple(fields), is_nt):
+            amb.add(c.name)
+        _RECORDS[c.name] = (tuple(fields), is_nt)
+    for n in amb:
+        _RECORDS.pop(n, None)
+
+
+def record_fields(e):
+    """{field: value expr} of a record construction `T(...)` (T a NamedTuple / dataclass of the program), else None"""
+    if not (isinstance(e, ast.Call) and isinstance(e.func, (ast.Name, ast.Attribute))):
+        return None
+    name = e.func.id if isinstance(e.func, ast.Name) else e.func.attr
+    rec = _RECORDS.get(name)
+    if rec is None or any(isinstance(a, ast.Starred) for a in e.args) or any(k.arg is None for k in e.keywords) or len(e.args) > len(rec[0]):
+        return None
+    out = dict(zip(rec[0], e.args))
+    for k in e.keywords:
+        if k.arg not in rec[0] or k.arg in out:
+            return None
+        out[k.arg] = k.value
+    return out
+
+
+def record_elts(e):
+    """the element expressions of a tuple display, or of the construction of a NamedTuple of the program in field order (a
+    NamedTuple is a tuple: positions, unpacking and comparison are those of its fields); None for anything else"""
+    if isinstance(e, ast.Tuple):
+        return list(e.elts)
+    if isinstance(e, ast.Call) and isinstance(e.func, (ast.Name, ast.Attribute)):
+        name = e.func.id if isinstance(e.func, ast.Name) else e.func.attr
+        rec = _RECORDS.get(name)
+        fl = record_fields(e) if rec is not None and rec[1] else None
+        if fl is not None and all(k in fl for k in rec[0]):
+            return [fl[k] for k in rec[0]]
+    return None
+
+
+def field_key(e):
+    """(base expression, field) of a read of one field of a record, written `base['field']`, `base.field`, or `base[i]` for a
+    NamedTuple field (then also the position); None otherwise"""
+    if isinstance(e, ast.Subscript) and isinstance(e.slice, ast.Constant) and isinstance(e.slice.value, str):
+        return e.value, e.slice.value
+    if isinstance(e, ast.Attribute):
+        return e.value, e.attr
+    return None
+
+
 def _build_signatures(P):
     """name -> set of parameter tuples over every function / method of the analysed program (self / cls dropped)"""
+    _build_records(P)
     _SIG.clear()
     for f in P.functions.values():
         a = f.node.args
@@ -633,7 +704,8 @@ def dict_items(e):
         return out
     if isinstance(e, ast.Call) and isinstance(e.func, ast.Name) and e.func.id == "dict" and not e.args:
         return {k.arg: k.value for k in e.keywords if k.arg}
-    return None
+    # a record with named fields (NamedTuple / dataclass of the program) in place of a dict with constant keys
+    return record_fields(e)
 
 
 def stmts_in(body):
